@@ -18,6 +18,14 @@ def run(ctx):
         big = [j for j in jobs if len(j[1]) == 3][:8]
         jobs = sel + big
     fl.run_mixes(ctx, rp, jobs, max_paths=300 if ctx.quick else None)
+    # finest grain (FutureFine.tla): the thread-local code between two atomic operations is a step of its own, so a plain
+    # access on the wrong side of an atomic operation (result stored after the resolving exchange, a node touched after its
+    # waiter was released, ...) is exposed to the other threads; small mixes
+    fine = [(["val"], ["co"]), (["val"], ["bl"]), (["exc"], ["cb"]), (["drop"], ["hv"]), (["final"], ["co", "bl"]), (["val"], ["bl", "cb"]),
+            (["dtor"], ["co"]), (["mdes"], ["bl"]), (["exc"], ["co", "hv"]), (["val", "drop"], ["co"])]
+    if not ctx.quick:
+        fine += [(r, w) for r in (["val"], ["exc"], ["drop"], ["final"]) for w in fl.waiter_mixes(2)]
+    fl.run_mixes_fine(ctx, rp, fine, max_paths=400 if ctx.quick else None)
     # code -> spec: random schedules of mixes beyond the dumpable bound, validated as traces by TLC
     big = [(["val"], ["co", "bl", "cb", "hv"]), (["exc", "drop"], ["bl", "bl", "co", "co"]), (["val", "mdes", "dtor"], ["cb", "bl", "co"]),
            (["final"], ["bl", "co", "cb", "hv", "bl"])]
